@@ -242,6 +242,14 @@ pub fn lone_cr_after_line_bound_token(input: &str) -> bool {
                 return true;
             }
         }
+        // a gap made only of lone CRs, between any two tokens: neither a space nor a counted line
+        // break, so the two tokens are written without anything between them (`'s'` CR `'''` -> `'s''''`)
+        if let Some(n) = toks.get(i + 1) {
+            let gap = &input[t.end..n.start];
+            if !gap.is_empty() && gap.bytes().all(|b| b == b'\r') {
+                return true;
+            }
+        }
     }
     false
 }
